@@ -62,7 +62,10 @@ def trial(e):
         return out
     shutil.copy('/repo/Cargo.lock', os.path.join(wt, 'Cargo.lock'))
     try:
-        if e.get('demo') or e.get('demo_cmd'):
+        manual = bool(e.get('manual_demo'))
+        if manual:
+            out['ran'].append('demonstration run by hand: ' + e['manual_demo'])
+        if (e.get('demo') or e.get('demo_cmd')) and not manual:
             rc, tail = demo_run(wt, e, tdir)
             out['demo_clean'] = 'pass' if rc == 0 else 'FAIL'
             out['ran'].append('demonstration on the clean tree: exit %d' % rc)
@@ -75,7 +78,7 @@ def trial(e):
         r = sh(BASE, cwd=wt, env=dict(os.environ, CARGO_TARGET_DIR=tdir))
         out['baseline'] = r.stdout.strip().split('\n')[-1][:160]
         out['ran'].append('pinned test suite with the change: ' + out['baseline'])
-        if e.get('demo') or e.get('demo_cmd'):
+        if (e.get('demo') or e.get('demo_cmd')) and not manual:
             rc, tail = demo_run(wt, e, tdir)
             out['demo_patched'] = 'fail' if rc != 0 else 'PASS'
             out['ran'].append('demonstration with the change: exit %d' % rc)
